@@ -2244,10 +2244,12 @@ m("C03", "unterminated-end-tag-loses-blanks", "parser.py",
 
 m("C03", "unquoted-value-stops-at-slash", "parser.py",
   """    r'(?P<alt_value>(?:[^\\s>/]|/(?!>))+))|'""",
-  """    r'(?P<alt_value>[^\\s\\'">/]+))|'""")
+  """    r'(?P<alt_value>[^\\s\\'">/]+))|'""", expect="silent")
+# (silent since 32ba974: text the attribute pattern skips is kept, so a
+# narrower value class no longer changes what a statement-free tag renders)
 m("C03", "unquoted-value-stops-at-quote", "parser.py",
   """    r'(?P<alt_value>(?:[^\\s>/]|/(?!>))+))|'""",
-  """    r'(?P<alt_value>(?:[^\\s>/\\'"]|/(?!>))+))|'""")
+  """    r'(?P<alt_value>(?:[^\\s>/\\'"]|/(?!>))+))|'""", expect="silent")
 
 m("C11", "valueless-attribute-plain-value", "parser.py",
   "            attr['value'] = simple_value\n",
@@ -2270,3 +2272,10 @@ m("C07", "attribute-expression-decoded-again", ZP,
                             expr,''',
   '''                        value = nodes.Substitution(
                             decode_htmlentities(expr),''')
+
+m("C03", "gap-text-dropped", "parser.py",
+  '''        if m.start() > pos:
+            # Text that matches no attribute is kept as it is written,
+            # in front of the attribute that follows it.
+            attr['space'] = token[pos:m.start()] + attr['space']
+''', "")
